@@ -26,6 +26,9 @@ pub struct SpaceOpts {
     pub reduced: usize,
     pub corpus: bool,
     pub letter_canonical: bool,
+    /// position family: nesting depth with the reduced context set, and with the full set
+    pub position: usize,
+    pub position_full: usize,
 }
 
 impl SpaceOpts {
@@ -38,6 +41,8 @@ impl SpaceOpts {
                 reduced: 0,
                 corpus: true,
                 letter_canonical: true,
+                position: 2,
+                position_full: 1,
             },
             Tier::Thorough => SpaceOpts {
                 shape: 5,
@@ -46,6 +51,8 @@ impl SpaceOpts {
                 reduced: 6,
                 corpus: true,
                 letter_canonical: true,
+                position: 3,
+                position_full: 2,
             },
         }
     }
@@ -112,6 +119,19 @@ pub fn for_each_expr(opts: &SpaceOpts, f: &(dyn Fn(&Expr) + Sync)) -> u64 {
                 g2.for_each_with_prefix(size, prefix, &mut |s: &Seq| visit(s, "reduced"));
             });
         }
+    }
+    // position family
+    {
+        let mut fam: Vec<Seq> = vec![];
+        if opts.position > 0 {
+            fam.extend(gen::position_family(opts.position, false));
+        }
+        if opts.position_full > 0 {
+            fam.extend(gen::position_family(opts.position_full, true));
+        }
+        fam.sort();
+        fam.dedup();
+        fam.par_iter().for_each(|s| visit(s, "position"));
     }
     if opts.corpus {
         let c = corpus();
